@@ -39,6 +39,8 @@ func run(c *driver.Ctx) {
 		rng := c.CaseRand(i)
 		c.Eval()
 		switch {
+		case i < n1 && i%16 == 7:
+			runShutdownWindow(c, rng, i)
 		case i < n1:
 			runL1(c, rng, i)
 			c.Observe("l1_scripts", 1)
@@ -63,6 +65,7 @@ func main() {
 		ID:    "C02",
 		Level: "exploration",
 		Rule: "L1: a case is a seed-generated script of offer / complete / cancel steps on a seed-generated configuration (memory|persistent, requests|items|bytes sizer, capacity, 1-3 consumers, block_on_overflow, wait_for_result), distinct by (configuration, step trace), non-trivial when it reached a refusal, a blocked producer, >= 2 requests in flight or a cancellation while blocked; " +
+			"L1-shutdown-window: every accepted request of a full blocking queue waits in a one-hour retry back-off, one producer is blocked for space, the exporter is shut down (the retry sender stops before the queue): Shutdown returns and the producer is released by the interrupted requests' completions; " +
 			"L1-directed: the signal-versus-cancel rendezvous inside a blocked producer's wait window (completion and cancellation made ready at the same instant through the instrumented context), followed by a block/complete/release probe of the wake-up bookkeeping; " +
 			"L1-recovered: a persistent queue restarted on the image of a previous incarnation in which a seed-chosen subset of the stored elements cannot be dispatched (garbage / truncated / short payloads, optionally one transient storage error), with block_on_overflow and producers blocked behind the backlog; judged by exactly-once for intact and new requests, never-for-refused, order of intact elements, no producer left blocked with nothing in flight, size zero at rest; " +
 			"L3: high-volume accounting stress (4-8 producers x 1200-4000 blocking offers of different sizes, with and without wait_for_result, size readers hammering the lock) judged only by size bounds, zero at rest, every producer returning; " +
